@@ -11,6 +11,7 @@
   * `rename_self`: renaming a name to itself keeps every name up to case and never fails.
 -/
 import DnsModel.Lemmas.RenameRun
+import DnsModel.Tie.Rename
 import DnsModel.Tie.Reader
 import DnsModel.Theorems.C06
 namespace Dns.C07
@@ -305,5 +306,12 @@ theorem source_reader_tie (p pre n1 n2 : Bytes) (off : Nat) :
       = (copyUncompressedName p off >>= fun r => Res.ok ((r.1.length, r.2), pre ++ r.1)) ∧
     Tr.Reader.raw_names_eq_ignore_case n1 n2 = .ok (rawNamesEqIgnoreCase n1 n2) :=
   Tie.reader_tie p pre n1 n2 off
+
+
+/-- `Renamer::replace_raw`, re-translated from /repo/src/renamer.rs on every run (`Generated/TrRename.lean`), is the
+model function `replaceRaw` that `replaceRaw_spec` characterises (`Tie/Rename.lean`) -/
+theorem source_replace_raw (name target source : Bytes) (sfx : Bool) :
+    Tr.Rename.replace_raw name target source sfx = replaceRaw name target source sfx :=
+  Tie.replace_raw_eq name target source sfx
 
 end Dns.C07
